@@ -895,13 +895,17 @@ class NetworkGraph(AbstractBaseIR):
                                 _rhs_s = _subst(_rhs, expr_map)
                                 if "d/dt" in _lhs or "'" in _lhs:
                                     sv_flat = f'{_de_lhs_var(_lhs)}_edge{i}_flat'
-                                    eqs.append(f"{sv_flat}' = flatten1d({_rhs_s})")
+                                    # a single (target, source) pair: the edge state is a scalar slot
+                                    eqs.append(f"{sv_flat}' = vsum({_rhs_s})" if Nt * Ns == 1
+                                               else f"{sv_flat}' = flatten1d({_rhs_s})")
                                 else:
                                     expr_map[_lhs] = _rhs_s
                             last_out = _od.get('output')
 
                         final_expr = expr_map.get(last_out, last_out)
-                        eqs.append(f"{t_str} = wsum({w_str}, {final_expr})")
+                        # one target unit: the target variable is a scalar slot, the row sum is a total sum
+                        eqs.append(f"{t_str} = vsum({w_str} * ({final_expr}))" if Nt == 1
+                                   else f"{t_str} = wsum({w_str}, {final_expr})")
 
                     else:
                         # case 0b: non-dynamic (algebraic) edge — inline and reduce
@@ -914,7 +918,9 @@ class NetworkGraph(AbstractBaseIR):
                             last_out = _od.get('output')
 
                         final_expr = expr_map.get(last_out, last_out)
-                        eqs.append(f"{t_str} = wsum({w_str}, {final_expr})")
+                        # one target unit: the target variable is a scalar slot, the row sum is a total sum
+                        eqs.append(f"{t_str} = vsum({w_str} * ({final_expr}))" if Nt == 1
+                                   else f"{t_str} = wsum({w_str}, {final_expr})")
 
                 in_vars.append(t_str)
                 continue
